@@ -438,10 +438,16 @@ class CatalogWriter(AbstractContextManager, HandlesDataChunk):
             )
 
         if self.cache_directory.exists():
-            if overwrite:
-                rmtree(self.cache_directory)
-            else:
+            if not overwrite:
                 raise FileExistsError(f"cache directory exists: {cache_directory}")
+
+            info_file = self.cache_directory / PATCH_INFO_FILE
+            if not info_file.exists():
+                raise FileExistsError(
+                    f"not a catalog cache, refusing to overwrite: {cache_directory}"
+                )
+            info_file.unlink()  # the old catalog is invalid from here on
+            rmtree(self.cache_directory)
 
         self.buffersize = buffersize
         self.cache_directory.mkdir()
